@@ -10,6 +10,7 @@ import (
 	"io"
 	"math"
 	"math/rand/v2"
+	"strconv"
 	"strings"
 )
 
@@ -114,10 +115,29 @@ var hostileFloats = []float64{0, 1, -1, 0.1, -0.1, 1e-320, 5e-324, math.MaxFloat
 	// whole numbers on and next to integer-type boundaries (a writer that prints whole numbers through an integer type)
 	1 << 31, 1<<31 - 1, -(1 << 31), 1 << 32, 1 << 53, 1<<53 + 2, -(1 << 53), 0x1p63, -0x1p63, 0x1p63 + 2048, 0x1p63 - 1024, 0x1p64, -0x1p64, 1e15, 1e16, 1e18, 1e19, 1e22, -1e19, 123456789012345678}
 
+// decimalFloat returns the float64 nearest to a decimal number with the given
+// number of significant digits (1..17) and decimal exponent — the numbers people
+// write, and the ones whose shortest text is short: a hand-written fast path of
+// a number parser or formatter (exact powers of ten, a split multiplication, a
+// digit-count threshold) is taken for exactly these and never for random bits.
+func decimalFloat(r *rand.Rand, digits, exp int) float64 {
+	mant := uint64(1 + r.IntN(9))
+	for d := 1; d < digits; d++ {
+		mant = mant*10 + uint64(r.IntN(10))
+	}
+	f, _ := strconv.ParseFloat(fmt.Sprintf("%de%d", mant, exp), 64)
+	if r.IntN(2) == 0 {
+		f = -f
+	}
+	return f
+}
+
 func randFloat(r *rand.Rand, allowNonFinite bool) float64 {
 	for {
 		var f float64
-		switch r.IntN(4) {
+		switch r.IntN(5) {
+		case 4:
+			f = decimalFloat(r, 1+r.IntN(17), r.IntN(640)-330)
 		case 0:
 			f = pick(r, hostileFloats)
 		case 1:
